@@ -22,4 +22,8 @@ METHODS = [
       dict(func="unpack", params={"buffer": "bytes"}, prop="C15", theorem="src_RTCTime_unpack"),
       dict(func="to_rtc", prop="C15", theorem="src_RTCTime_to_rtc"),
   ]),
+  dict(file="AcraNetwork/SimpleEthernet.py", cls="UDP", lean="UDP", methods=[
+      dict(func="pack", prop="C02", theorem="src_UDP_pack"),
+      dict(func="unpack", prop="C02", theorem="src_UDP_unpack"),
+  ]),
 ]
